@@ -679,7 +679,7 @@ pub fn final_step(n: &Uint, fb: &FBase, rels: &[Relation], verbose: Verbosity) -
         }
         // Make sure relation element is smaller than N.
         let mut r = r.clone();
-        if &r.x > n {
+        if &r.x >= n {
             r.x %= n;
         }
         filt_rels.push(r);
